@@ -640,7 +640,7 @@ def stale_arguments(ctx, E, scripts, pending, per_entity=2):
     G, I, T, S, O = E.G, E.I, E.T, E.S, E.O
     def live_of(ent):
         return {G: lambda: G[2], I: lambda: I[3], T: lambda: T[2], O: lambda: O[1], S: lambda: G[3]}[ent]()
-    def shapes(x): return [('bare', x), ('list', [x]), ('set', {x}), ('tuple', (x,))]
+    def shapes(x): return [('bare', x), ('list', [x]), ('set', {x}), ('tuple', (x,))] if ctx.thorough else [('bare', x), ('list', [x]), ('tuple', (x,))][:2 + (ctx.seed % 2)]
     for script in scripts:
         if script[0] == 'failed_flush': continue
         for strict in (False, True):
@@ -662,17 +662,26 @@ def stale_arguments(ctx, E, scripts, pending, per_entity=2):
                                 calls.append(('%s.%s = %s' % (ent.__name__, attr.name, sh), lambda ent=ent, attr=attr, x=x: setattr(live_of(ent), attr.name, x)))
                                 calls.append(('%s.%s += %s' % (ent.__name__, attr.name, sh), lambda ent=ent, attr=attr, x=x: getattr(live_of(ent), attr.name).__iadd__(x)))
                                 calls.append(('%s.set(%s=%s)' % (ent.__name__, attr.name, sh), lambda ent=ent, attr=attr, x=x: live_of(ent).set(**{attr.name: x})))
-                                calls.append(('%s(%s=%s)' % (ent.__name__, attr.name, sh), lambda ent=ent, attr=attr, x=x: new_object(E, ent, {attr.name: x})))
+                                for when in ('first', 'later'):
+                                    pre_q = (lambda: None) if when == 'first' else (lambda: E.T[1])
+                                    calls.append(('%s(%s=%s) [%s]' % (ent.__name__, attr.name, sh, when), lambda ent=ent, attr=attr, x=x, pre_q=pre_q: (pre_q(), new_object(E, ent, {attr.name: x}, first=(when == 'first')))))
                         else:
+                            # keyword lookups with the stale object as the key, and the constructor, as the FIRST thing in the session
+                            # (the new session has no cache yet) and after a query
+                            for when in ('first', 'later'):
+                                pre_q = (lambda: None) if when == 'first' else (lambda: E.T[1])
+                                calls.append(('%s.get(%s=bare) [%s]' % (ent.__name__, attr.name, when), lambda ent=ent, attr=attr, pre_q=pre_q: (pre_q(), ent.get(**{attr.name: st}))))
+                                calls.append(('%s.exists(%s=bare) [%s]' % (ent.__name__, attr.name, when), lambda ent=ent, attr=attr, pre_q=pre_q: (pre_q(), ent.exists(**{attr.name: st}))))
+                                calls.append(('%s.select(%s=bare) [%s]' % (ent.__name__, attr.name, when), lambda ent=ent, attr=attr, pre_q=pre_q: (pre_q(), ent.select(**{attr.name: st})[:])))
+                                calls.append(('%s(%s=bare) [%s]' % (ent.__name__, attr.name, when), lambda ent=ent, attr=attr, pre_q=pre_q: (pre_q(), new_object(E, ent, {attr.name: st}, first=(when == 'first')))))
                             calls.append(('%s.%s = bare' % (ent.__name__, attr.name), lambda ent=ent, attr=attr: setattr(live_of(ent), attr.name, st)))
                             calls.append(('%s.set(%s=bare)' % (ent.__name__, attr.name), lambda ent=ent, attr=attr: live_of(ent).set(**{attr.name: st})))
-                            calls.append(('%s(%s=bare)' % (ent.__name__, attr.name), lambda ent=ent, attr=attr: new_object(E, ent, {attr.name: st})))
                         # create() on a live collection whose item entity has this relationship attribute
                         for cattr in [a for e2 in (G, I, T, O) for a in e2._attrs_ if a.is_collection and a.py_type is ent and a.reverse is not attr]:
                             val = [st] if attr.is_collection else st
                             calls.append(('%s.%s.create(%s=%s)' % (cattr.entity.__name__, cattr.name, attr.name, 'list' if attr.is_collection else 'bare'),
                                           lambda cattr=cattr, attr=attr, val=val: getattr(live_of(cattr.entity), cattr.name).create(**dict(required_kwargs(cattr.py_type, skip=(cattr.reverse.name, attr.name)), **{attr.name: val}))))
-                for label, f in calls:
+                def one_call(label, f):
                     pre = canon_world(A.snapshot()); xpre = A.extra(); dump_pre = E.dump(); m = E.tr.mark()
                     err = None; msg = ''
                     try:
@@ -685,6 +694,7 @@ def stale_arguments(ctx, E, scripts, pending, per_entity=2):
                     events = E.tr.db_events(E.tr.since(m))
                     post = canon_world(A.snapshot()); xpost = A.extra(); dump_post = E.dump()
                     inp = {'script': script[0], 'strict': strict, 'stale': '%s (%s)' % (type(st).__name__, st._status_), 'call': 'live ' + label, 'stale_argument': True}
+                    E.last_case = inp
                     ctx.case(['stale-arg', script[0], strict, type(st).__name__, st._status_, label], kind='stale-arg:' + label.split('(')[0].split('=')[0].strip().split('.')[-1])
                     ctx.count('stale-arg-outcome:' + (err or 'no-error'))
                     writes = [e for e in events if e['call'] in ('execute', 'executemany') and e['kind'] in WRITE_KINDS]
@@ -704,22 +714,29 @@ def stale_arguments(ctx, E, scripts, pending, per_entity=2):
                     real = {'error': 'TransactionError', 'why': 'mixed'} if (err == 'TransactionError' and 'mix objects' in msg) else {'error': err or 'no-error', 'msg': msg[:80]}
                     pending.append(({'op': 'step', 'world': pre, 'obj': s_i, 'opr': {'k': 'staleArg'}, 'ambient': True}, real, post,
                                     dict(inp, obj=s_i), 0))
+                for label, f in calls:
+                    try: one_call(label, f)
+                    except Exception as e:
+                        ctx.divergence('a stale-argument call could not be evaluated: %s: %s' % (type(e).__name__, str(e)[:160]),
+                                       {'script': script[0], 'strict': strict, 'call': 'live ' + label, 'stale': type(st).__name__}, model='mixed', impl=type(e).__name__)
+                        try: E.reset()
+                        except Exception: pass
 
 
 def required_kwargs(ent, skip=()):
     return {a.name: 1 for a in ent._attrs_ if a.is_required and not a.is_collection and not a.reverse and a.pk_offset is None and not a.is_discriminator and a.name not in skip}
 
-def new_object(E, ent, kw):
+def new_object(E, ent, kw, first=False):
     kw = dict(required_kwargs(ent, skip=tuple(kw)), **kw)
-    for a in ent._attrs_:      # required references other than the one under test: a live object
+    for a in ent._attrs_:      # required references other than the one under test: a live object (by raw key when nothing may be queried first)
         if a.is_required and a.reverse and not a.is_collection and a.name not in kw:
-            kw[a.name] = {E.G: lambda: E.G[2]}[a.py_type]()
+            kw[a.name] = 2 if first else {E.G: lambda: E.G[2]}[a.py_type]()
     return ent(**kw)
 
 
-def explore(ctx, E, scripts, stricts, ambients, target_limit=None, ambient_scripts=None):
+def explore(ctx, E, scripts, stricts, ambients, target_limit=None, ambient_scripts=None, pending=None):
     """returns the list of pending model checks: (request, real outcome, real post-state, case)"""
-    pending = []
+    if pending is None: pending = []
     for script in scripts:
         for ending in ENDINGS:
             if script[0] == 'failed_flush' and ending not in ('error', 'commit'): continue
@@ -778,6 +795,7 @@ def explore(ctx, E, scripts, stricts, ambients, target_limit=None, ambient_scrip
                             last = (post, xpost, dump_post)
                             op = dict(op)
                             nsel = len([e for e in events if e['call'] == 'execute' and e['kind'] == 'select'])
+                            E.last_case = dict(case, obj=o_i, op=op_brief(op), ambient=ambient)
                             full_case = dict(case, obj=o_i, ent=type(o).__name__, status=pre['objs'][o_i]['status'], op=op_brief(op), ambient=ambient)
                             ctx.case([script[0], ending, strict, ambient, type(o).__name__, pre['objs'][o_i]['status'], op_brief(op),
                                       pre['objs'][o_i]['vals'], pre['objs'][o_i]['cache']], kind='op:' + op['k'])
@@ -887,13 +905,23 @@ def run(ctx):
         scripts = SCRIPTS
         # quick tier: the variant 'inside a NEW db_session' for a seed-chosen half of the scripts (all of them in the thorough tier)
         amb = None if ctx.thorough else set(ctx.rng.sample([n for n, _ in scripts], (len(scripts) + 1) // 2))
-        pending = explore(ctx, E, scripts, [False, True], [False, True], target_limit=None if ctx.thorough else 5, ambient_scripts=amb)
+        pending = []
         stale_scripts = scripts if ctx.thorough else [sc for sc in scripts if sc[0] in ('full', 'created_graph', 'delete', 'one', 'subclass')]
-        stale_arguments(ctx, E, stale_scripts, pending, per_entity=3 if ctx.thorough else 2)
-        check_model(ctx, pending)
-        witnesses(ctx, E)
-        witness_json(ctx, E)
-        two_sessions(ctx, E, scripts if ctx.thorough else scripts[::2])
+        phases = [('operation matrix', lambda: explore(ctx, E, scripts, [False, True], [False, True], target_limit=None if ctx.thorough else 5, ambient_scripts=amb, pending=pending)),
+                  ('stale arguments', lambda: stale_arguments(ctx, E, stale_scripts, pending, per_entity=3 if ctx.thorough else 2)),
+                  ('model comparison', lambda: check_model(ctx, pending)),
+                  ('witnesses', lambda: witnesses(ctx, E)), ('json witness', lambda: witness_json(ctx, E)),
+                  ('two sessions', lambda: two_sessions(ctx, E, scripts if ctx.thorough else scripts[::3]))]
+        for name, phase in phases:
+            try: phase()
+            except Exception as e:
+                # an exception escaping from the code under test (or from the harness on a state only a changed tree produces) is a verdict
+                import traceback
+                tb = traceback.format_exc().splitlines()
+                ctx.divergence('the %s phase was stopped by an exception: %s: %s' % (name, type(e).__name__, str(e)[:200]),
+                               {'phase': name, 'last_case': getattr(E, 'last_case', None), 'traceback_tail': tb[-6:]}, model='completes', impl=type(e).__name__)
+                try: E.reset()
+                except Exception: pass
         ctx.extra['violation_keys'] = sorted(v['key'] for v in ctx.violations)
         ctx.extra['sessions'] = sum(v for k, v in ctx.counters.items() if k.startswith('ending:'))
     finally:
